@@ -35,6 +35,15 @@ func (f *Frame) call(ins ssa.Instruction, c *ssa.CallCommon, st *State) (Value, 
 		if fv.Fn != nil {
 			return f.callStatic(ins, fv.Fn, fv.Bind, args, st), true
 		}
+		// a contract on the named function type of the callee value (e.g. config getters)
+		if n, ok := c.Value.Type().(*types.Named); ok && n.Obj().Pkg() != nil {
+			if fc := f.u.eng.cs.Funcs[n.Obj().Pkg().Path()+"::type."+n.Obj().Name()]; fc != nil && fc.Pure && len(fc.Modifies) == 0 {
+				f.u.usedExterns["functype "+n.Obj().Pkg().Path()+"."+n.Obj().Name()+" (assumed pure)"] = true
+				results := f.freshResults("r_"+n.Obj().Name(), resT, st)
+				f.assumeWF(results, st)
+				return f.packResults(results, resT), true
+			}
+		}
 		return f.callUnknown(ins, "dynamic", c, args, resT, st, true), true
 	}
 }
@@ -130,7 +139,7 @@ func (f *Frame) inline(ins ssa.Instruction, callee *ssa.Function, binds []Value,
 	if ins != nil {
 		k = f.ords[ins]
 	}
-	sub := &Frame{u: u, fn: callee, top: false, depth: f.depth + 1,
+	sub := &Frame{u: u, fn: callee, top: false, depth: f.depth + 1, parent: f,
 		prefix:  fmt.Sprintf("%s/inl.%s#%d", f.prefix, calleeShort(callee), k),
 		env:     map[ssa.Value]Value{},
 		callers: append(append([]*ssa.Function{}, f.callers...), f.fn)}
@@ -226,10 +235,31 @@ func (f *Frame) callByContract(ins ssa.Instruction, fc *FuncContract, callee *ss
 	resT := callee.Signature.Results()
 	results := f.freshResults("r_"+sanitize(cname), resT, st)
 	f.assumeWF(results, st)
+	calleeGhost := map[string]CVal{}
 	lookupPost := func(name string) (CVal, bool) {
 		for i := 0; i < resT.Len(); i++ {
 			if name == fmt.Sprintf("r%d", i) || (resT.At(i).Name() != "" && resT.At(i).Name() == name) || (name == "result" && resT.Len() == 1) {
 				return f.cval(results[i], resT.At(i).Type()), true
+			}
+		}
+		// ghost variables of the callee are unknown to the caller: an arbitrary value per call
+		for _, g := range fc.Ghosts {
+			if g.Name == name {
+				if v, ok := calleeGhost[name]; ok {
+					return v, true
+				}
+				ce := &CEnv{u: u, pkg: pkg, bound: map[string]CVal{}}
+				var gt types.Type
+				func() {
+					defer func() { recover() }()
+					gt = ce.resolveType(g.T)
+				}()
+				if gt == nil {
+					return CVal{}, false
+				}
+				v := CVal{T: u.sc.fresh("cg_"+name, u.te.sortOf(gt)), Ty: gt}
+				calleeGhost[name] = v
+				return v, true
 			}
 		}
 		return lookupPre(name)
@@ -264,8 +294,8 @@ func (f *Frame) havocModifiesIn(m string, fc *FuncContract, pkg *types.Package, 
 	u := f.u
 	if m == "*" {
 		for _, r := range sortedKeys(u.rsorts) {
-			if !strings.HasPrefix(r, "Gh_") {
-				st.heap[r] = u.sc.fresh("hv_"+sanitize(r), u.rsorts[r])
+			if !strings.HasPrefix(r, "Gh_") && !u.eng.initOnlyGlobals()[r] {
+				f.havocRegion(st, r)
 			}
 		}
 		return
@@ -430,15 +460,15 @@ func (f *Frame) callUnknown(ins ssa.Instruction, name string, c *ssa.CallCommon,
 	}
 	if set["*"] {
 		for r := range u.rsorts {
-			if !strings.HasPrefix(r, "Gh_") {
+			if !strings.HasPrefix(r, "Gh_") && !u.eng.initOnlyGlobals()[r] {
 				set[r] = true
 			}
 		}
 		delete(set, "*")
 	}
 	for _, r := range sortedKeys(set) {
-		if s, ok := u.rsorts[r]; ok {
-			st.heap[r] = u.sc.fresh("hv_"+sanitize(r), s)
+		if _, ok := u.rsorts[r]; ok {
+			f.havocRegion(st, r)
 		}
 	}
 	// contents of slices passed to the callee may change
@@ -1306,4 +1336,19 @@ func hasReferences(t types.Type) bool {
 		return hasReferences(u.Elem())
 	}
 	return true
+}
+
+// havocRegion replaces a whole region by an unknown one, except for the cells of
+// local variables of the running frames whose address never escapes.
+func (f *Frame) havocRegion(st *State, r string) {
+	u := f.u
+	old := u.heapGet(st.heap, r)
+	nh := u.sc.fresh("hv_"+sanitize(r), u.rsorts[r])
+	for fr := f; fr != nil; fr = fr.parent {
+		for _, ref := range fr.localCells[r] {
+			es := strings.TrimSuffix(strings.TrimPrefix(u.rsorts[r], "(Array Int "), ")")
+			nh = mk(nh.Sort, "store", nh, ref, mk(es, "select", old, ref))
+		}
+	}
+	st.heap[r] = u.freshDef("h", nh)
 }
